@@ -92,6 +92,7 @@ def case(draw):
         b['fscale'] = draw(st.sampled_from([50, 25, 10, -30, 40]))
         # the optional steady-state initialisation is a property of the solve request as well
         b['steady'] = draw(st.sampled_from([False, False, True]))
+        b['max_iter'] = draw(st.sampled_from([None, None, None, 3, 8]))
         first = b['eqs'][0]
         first[1] = first[1] + ' + 0.10*f_half(' + first[0] + ')'
     nm = draw(st.sampled_from([1, 1, 2, 0]))
@@ -165,17 +166,24 @@ def run(spec):
                     for fn, f in blocks.user_funcs(bspec).items():
                         es.AddFunction(fn, f)
                     kind = 'fresh'
+                    # the iteration cap is a setting of the solver OBJECT, made once when it is created; whatever is
+                    # parsed into or solved on that object later runs under it
+                    cap = bspec.get('max_iter')
+                    if cap is not None:
+                        es.MaxIterations = cap
                 else:
                     es, _old = solvers[op[2] % len(solvers)]
                     if not isinstance(es, EquationSolver):
                         continue
+                    cap = _old.get('max_iter')
                     reduction = es.RunEquationReduction
                     kind = 'reparsed'
                     for fn, f in blocks.user_funcs(bspec).items():
                         es.AddFunction(fn, f)
                     diag_before_compare = True
                 es.TraceStep = trace
-                item = {'type': 'block', 'spec': bspec, 'reduction': bool(reduction), 'steady': bool(bspec.get('steady'))}
+                item = {'type': 'block', 'spec': bspec, 'reduction': bool(reduction), 'steady': bool(bspec.get('steady')),
+                        'max_iter': cap}
                 es.ParameterSolveInitialSteadyState = bool(bspec.get('steady'))
                 es.ParameterInitialSteadyStateMaxTime = 60
                 try:
